@@ -170,6 +170,35 @@ def c01RestCase (id : String) (payload : List Sexp) : List String :=
     both id modelLines specLines reg
   | none => err id "bad-c01rest-case"
 
+/-- `(rest-attempts (body yes|no) (ctx yes|no) (fails n) (cancel k))`: a call through a chain with
+    RetryMiddleware whose base transport answers `n` times unacceptably before it is accepted; the caller
+    cancels its context right after attempt `k` was answered (k < 0: never). One line set per attempt:
+    `a<j>.same` (verb, path, query, headers are the call's), `a<j>.body` (`-` | whole | drained), `a<j>.ctx`
+    (background | caller | caller:done). -/
+def restAttemptsCase (id : String) (payload : List Sexp) : List String :=
+  let p := Sexp.list (.atom "p" :: payload)
+  let flag := fun (k : String) => match p.field? k with
+    | some (.list [_, .atom "yes"]) => true
+    | _ => false
+  match (p.field? "fails").bind (fun f => f.args.head?.bind Sexp.asNat?),
+        (p.field? "cancel").bind (fun f => f.args.head?.bind Sexp.asInt?) with
+  | some n, some k =>
+    let r : Request := ⟨"V", ['/', 'p'], some [("q", ['1'])], if flag "body" then some "B" else none,
+      [("H", "1")], if flag "ctx" then some "caller" else none⟩
+    let ca : Option Nat := if k < 0 then none else some k.toNat
+    let showA := fun (a : Attempt) (j : Nat) =>
+      [(s!"a{j}.same", toString (decide (a.verb = r.verb ∧ a.path = r.path ∧ a.query = r.query ∧ a.headers = r.headers))),
+       (s!"a{j}.body", match a.body with | .absent => "-" | .whole _ => "whole" | .drained _ => "drained"),
+       (s!"a{j}.ctx", match a.ctx with
+          | none => "background"
+          | some t => if a.ctxDone then t ++ ":done" else t)]
+    let js := List.range (n + 1)
+    let modelLines := (js.map (fun j => showA (attempt r ca j) j)).flatten
+    let specLines := (js.map (fun j => showA (specAttempt r ca j) j)).flatten
+    let reg := if js.any (fun j => F_retryBody r j) then "F_retryBody" else "WF"
+    both id modelLines specLines reg
+  | _, _ => err id "bad-rest-attempts-case"
+
 /-- a Go `map[string]string` built from recogniser output, printed like harness restx does -/
 def showDirMap (kvs : List (List Char × List Char)) : String :=
   let m := RestD.sortKV (setAll [] (strKVs kvs))
